@@ -111,6 +111,14 @@ var ZGoMods = []ZGoMod{
 	{"module example.com/m\n\ngo 1.100\n", "1.100", "new"},
 	{"go 1.24\n", "1.24", "new"},
 	{"module example.com/m\n\nrequire example.com/x v1.0.0\n\ngo 1.24\n\ntoolchain go1.24.1\n", "1.24", "new"},
+	// the same line with other white space around it (a tab, an indent, blanks at the end, CRLF, a comment)
+	{"module example.com/m\n\ngo\t1.24\n", "1.24", "new"},
+	{"module example.com/m\n\n\tgo 1.24\n", "1.24", "new"},
+	{"module example.com/m\n\n  go   1.24.0  \n", "1.24.0", "new"},
+	{"module example.com/m\r\n\r\ngo 1.24\r\n", "1.24", "new"},
+	{"module example.com/m\n\ngo 1.24 // as of this release\n", "1.24", "new"},
+	{"go\t1.25\n", "1.25", "new"},
+	{"module example.com/m\n\ngo\t1.23\n", "1.23", "old"},
 	// spellings only the lenient reading accepts: it keeps major.minor
 	{"module example.com/m\n\ngo v1.24.0\n", "1.24", "new-lax"},
 	{"module example.com/m\n\ngo 1.24.x\n", "1.24", "new-lax"},
@@ -155,7 +163,9 @@ var zHostileBases = []string{"A.go", "C.go", "K.go", "k.go", "ẞ.txt", "SS.txt"
 	"inv\u202efdp.exe", "a\u2028b", "p\u2029q", "\u2025", "x\u0323", "at\uff20", "dag\u2020", "f\u2061x", "e\u212e", "per\u2030", "int\u203d", "sp\u3000ace", "m\u205fs",
 	// non-letters that share their low 16 bits with a letter of the safe pool (and one letter that shares them with a non-letter)
 	"\U0001f9d0.txt", "\U000e0100", "x\U00010100", "\U00014e00.go", "\uf800", "\U0002f800.go"}
-var zWholePaths = []string{"", ".", "..", "../up", "a/", "/", "dir/", "a/./b", "../../x", "/go.mod", "./go.mod", "sub/../go.mod", "sub//go.mod"}
+var zWholePaths = []string{"", ".", "..", "../up", "a/", "/", "dir/", "a/./b", "../../x", "/go.mod", "./go.mod", "sub/../go.mod", "sub//go.mod",
+	// reserved stems that first occur inside a longer word and later stand as an element of their own
+	"icons/con.png", "null/nul.txt", "auxiliary/aux.go", "lpt10/lpt1.cfg", "falcon/con/driver.go", "conx/con", "prnt/x/prn.a", "com12/com1"}
 
 // zModes for files that are not regular.
 var zModes = []fs.FileMode{fs.ModeSymlink | 0o777, fs.ModeSymlink | 0o777, fs.ModeDir | 0o755, fs.ModeNamedPipe | 0o644, fs.ModeSocket | 0o644,
@@ -404,6 +414,18 @@ func zMutateList(r *rand.Rand, files *[]*ZFile, o ZOpts, add func(p, tag string)
 	case 6: // bad element
 		add(path.Join(path.Dir(p), Pick(r, zHostileBases)), "hostile-base")
 	case 7: // bad directory element
+		if r.IntN(2) == 0 {
+			// a reserved name whose stem extends the name of a sibling directory (co/ and con.go): each path
+			// is judged on its own, whatever was looked at just before
+			st := Pick(r, [][2]string{{"co", "con"}, {"nu", "nul"}, {"au", "aux"}, {"pr", "prn"}, {"com", "com1"}, {"lpt", "lpt9"}, {"CO", "CON"}, {"c", "con"}})
+			pre := ""
+			if d := path.Dir(p); d != "." && d != "/" && r.IntN(2) == 0 {
+				pre = d + "/"
+			}
+			add(pre+st[0]+"/"+Pick(r, zSafeBases), "prefix-dir-of-reserved-name")
+			add(pre+st[1]+Pick(r, []string{".go", ".txt", "", ".tar.gz"}), "reserved-name-after-its-prefix")
+			return
+		}
 		add(strings.TrimSuffix(Pick(r, []string{"con/", "aux.d/", "x./", "q?/", "nul/", "a..b/", "foo~1/"}), "/")+"/"+path.Base(p), "hostile-dir")
 	case 8: // VCS metadata file and friends
 		add(Pick(r, []string{".hg_archival.txt", "x/.hg_archival.txt", ".HG_ARCHIVAL.TXT", "vendor/modules.txt", "pkg/vendor/modules.txt"}), "vcs-file")
